@@ -602,6 +602,7 @@ theorem read_eq_some {bs name r1 hb r2 lr r3 ords r4 magic r5 r6 : Bytes} {mi : 
     (hsmp : (hdrs.map fun h => 2 * h.size).sum = smpSize)
     (hdig : mi.digital = false) (htest : hdrs.all hdrTestOk = true)
     (hvol : (hdrs.any fun h => decide (h.vol ≥ 128)) = false)
+    (hlen : ¬ ((lr.getD 0 0).toNat > 128))
     (hflex : ¬ (1084 + pat * 4 * mi.chn * 64 + smpSize < bs.length))
     (hwow : magic = str "M.K." → ¬ (1084 + pat * 32 * 64 + smpSize = bs.length / 2 * 2))
     (hpt : magic = str "M.K." → 1084 + pat * 1024 = bs.length → ((hdrs.map hdrSmp).any fun x => decide (x.len > 0)) = false)
@@ -616,7 +617,7 @@ theorem read_eq_some {bs name r1 hb r2 lr r3 ords r4 magic r5 r6 : Bytes} {mi : 
                      ins := (List.range 31).zipWith hdrIns hdrs, smps := smps.map obsLoop,
                      spd := 6, bpm := 125 } := by
   unfold read
-  simp only [h1, h2, h3, h4, h5, hmi, hhdrs, hpat, hsmp, Option.bind_eq_bind, Option.bind_some, htest, hvol, hdig,
+  simp only [h1, h2, h3, h4, h5, hmi, hhdrs, hpat, hsmp, Option.bind_eq_bind, Option.bind_some, htest, hvol, hlen, hdig,
     decide_eq_false hflex, Bool.and_false, Bool.false_and, Bool.not_false, Bool.and_true, Bool.not_true,
     Bool.false_eq_true, if_false]
   have hW : ∀ a d : Bool, (a && decide (magic = str "M.K.") && d &&
